@@ -36,3 +36,22 @@ Proof.
          | |- context [?a <? ?b] => destruct (a <? b); cbn [orb andb negb]
          end; reflexivity.
 Qed.
+
+(* the threshold and monotonicity theorems, restated for the function the translator derives from the current source *)
+From VProofs Require Import HostKeyProofs.
+Lemma src_rsa_thresholds_host : forall name s, mem name rsa_family = true -> 0 < s ->
+  src_hostkey_notes name false s "" 0 =
+  (if s <? 2048 then [note_small "" s] else [], if (2048 <=? s) && (s <? 3072) then [hk_two2k_warning] else []).
+Proof. intros name s H1 H2. rewrite <- tie_hostkey_notes. apply rsa_thresholds_host; assumption. Qed.
+Lemma src_rsa_thresholds_cert : forall name hs cat cs, rsa_cert_type name -> mem cat rsa_family = true -> 0 < hs -> 0 < cs ->
+  src_hostkey_notes name true hs cat cs =
+  ((if hs <? 2048 then [note_small "hostkey " hs] else []) ++ (if cs <? 2048 then [note_small "CA key " cs] else []),
+   if ((2048 <=? hs) && (hs <? 3072)) || ((2048 <=? cs) && (cs <? 3072)) then [hk_two2k_warning] else []).
+Proof. intros. rewrite <- tie_hostkey_notes. apply rsa_thresholds_cert; assumption. Qed.
+Lemma src_rating_monotone_host : forall name s s', mem name rsa_family = true -> 0 < s -> s <= s' ->
+  severity (src_hostkey_notes name false s' "" 0) <= severity (src_hostkey_notes name false s "" 0).
+Proof. intros. rewrite <- !tie_hostkey_notes. apply rating_monotone_host; assumption. Qed.
+Lemma src_rating_monotone_cert : forall name cat hs hs' cs cs', rsa_cert_type name -> mem cat rsa_family = true ->
+  0 < hs -> hs <= hs' -> 0 < cs -> cs <= cs' ->
+  severity (src_hostkey_notes name true hs' cat cs') <= severity (src_hostkey_notes name true hs cat cs).
+Proof. intros. rewrite <- !tie_hostkey_notes. apply rating_monotone_cert; assumption. Qed.
